@@ -78,20 +78,50 @@ def model_runs(chk, tier):
     return cases
 
 
+def crash_site(text):
+    """The j5 function that fills a dying worker's stack dump (the one that recurses)."""
+    count = {}
+    for l in (text or "").split("\n"):
+        l = l.strip()
+        if l.startswith("github.com/pentops/j5/") and "verifh" not in l:
+            fn = l.rsplit("(", 1)[0].replace("github.com/pentops/j5/", "")
+            count[fn] = count.get(fn, 0) + 1
+    best = sorted(count.items(), key=lambda kv: (-kv[1], kv[0]))
+    return best[0][0] if best else "unknown-site"
+
+
+def crash_kind(e):
+    if e.get("timeout") and not (e.get("crash") or "").strip():
+        return "timeout"
+    t = e.get("crash") or ""
+    if "stack overflow" in t or "goroutine stack exceeds" in t:
+        return "stack-overflow"
+    return "crash"
+
+
+MINIMISE_PER_GROUP = 12
+
+
 def run_cases(chk, cases, name):
     """Direction G, code side. Returns envelopes; a worker death is re-examined in sub-processes (minimised, attributed)."""
     res = chk.replay("shapes-reflect", cases, name, workers=W, timeout=PER_CASE)
     dead = [i for i, e in enumerate(res) if e.get("crash") or e.get("timeout")]
     chk.extra_cov["worker_deaths"] = chk.extra_cov.get("worker_deaths", 0) + len(dead)
     if dead:
-        # identical shapes die identically: minimise one representative per (recursion form, stderr head)
-        again = []
+        # identical shapes die identically: minimise some representatives per (kind of death, recursing function, recursion form);
+        # the others keep the class and the recursing function (crash_sig)
+        groups = {}
         for i in dead:
+            groups.setdefault((crash_kind(res[i]), crash_site(res[i].get("crash")), cases[i].get("rec")), []).append(i)
+        pick = [i for g in groups.values() for i in g[:MINIMISE_PER_GROUP]]
+        again = []
+        for i in pick:
             c = dict(cases[i])
             c["mincrash"] = True
             again.append(c)
         r2 = chk.replay("shapes-reflect", again, name + "_mincrash", workers=W, timeout="300s")
-        for i, e2 in zip(dead, r2):
+        chk.extra_cov["worker_deaths_minimised"] = chk.extra_cov.get("worker_deaths_minimised", 0) + len(pick)
+        for i, e2 in zip(pick, r2):
             o2 = e2.get("out") or {}
             if o2.get("viol"):
                 res[i] = e2
@@ -102,8 +132,9 @@ def run_cases(chk, cases, name):
 
 
 def crash_sig(c, e, sig):
-    # only reached when the sub-process minimisation itself failed: keep the class and the recursion form
-    return sig + "|rec=" + str(c.get("rec"))
+    # a worker death that was not minimised: class of death and the recursing function
+    return "C18|%s|%s|%s|unminimised" % ("timeout" if crash_kind(e) == "timeout" else "crash|" + crash_kind(e),
+                                         crash_site(e.get("crash")), "rec=" + str(c.get("rec")))
 
 
 def events_of(res):
